@@ -1,17 +1,18 @@
 P = "github.com/tochemey/goakt/v4/actor."
-SHAPES = [1, 2, 3, 4, 5, 6]
+SHAPES = [1, 2, 3, 4, 5, 6, 7]
 CHECK = {
     "id": "C13",
     "packages": ["./actor"],
     "harness": ["actor/zz_verif_c13.go"],
     "entries": [
-        {"fn": P + "vC13_history4", "tiers": ("quick",), "cases": {"prefix": [0]}, "cover_optional": ("unstashAll-many",)},
+        {"fn": P + "vC13_history4", "tiers": ("quick",), "cases": {"prefix": [0], "share": [0, 1]}, "cover_optional": ("unstashAll-many",)},
         # the shared context pool may hit or miss at any time (other actors use it concurrently)
-        {"fn": P + "vC13_history3", "cases": {"prefix": [0]}, "opts": {"select_precise": False},
+        {"fn": P + "vC13_history3", "cases": {"prefix": [0], "share": [0, 1]}, "opts": {"select_precise": False},
          "cover_optional": ("unstashAll-many", "both-nonempty-at-end")},
-        {"fn": P + "vC13_suffix2", "tiers": ("quick",), "cases": {"prefix": SHAPES}},
-        {"fn": P + "vC13_history5", "tiers": ("thorough",), "cases": {"prefix": [0]}},
-        {"fn": P + "vC13_suffix3", "tiers": ("thorough",), "cases": {"prefix": SHAPES}},
+        {"fn": P + "vC13_suffix2", "tiers": ("quick",), "cases": {"prefix": SHAPES, "share": [0]}},
+        {"fn": P + "vC13_suffix2", "tiers": ("quick",), "cases": {"prefix": [2, 4, 7], "share": [1]}},
+        {"fn": P + "vC13_history5", "tiers": ("thorough",), "cases": {"prefix": [0], "share": [0, 1]}},
+        {"fn": P + "vC13_suffix3", "tiers": ("thorough",), "cases": {"prefix": SHAPES, "share": [0, 1]}},
         {"fn": P + "vC13_nobuffer"},
     ],
     "replace": [{"file": "actor/pools.go", "old": "const contextPoolSize = 8192", "new": "const contextPoolSize = 2"}],
@@ -19,8 +20,8 @@ CHECK = {
     # unwinding assertion is an obligation
     "opts": {"unwind": 12, "feas_from_iter": 1000, "select_precise": True,
              "loop_bounds": {"(*" + P + "PID).unstashAll": 5}},
-    "timeout_ms": {"quick": 240000, "thorough": 1800000},
-    "explanation": 'PID.stash/unstash/unstashAll (through ReceiveContext.Stash/Unstash/UnstashAll), cloneContext, getContext and the context pool, PID.doReceive and the real UnboundedMailbox (main mailbox and stash buffer: Enqueue/Dequeue/IsEmpty) are executed symbolically on one actor. A history is a sequence of decisions {a ghost-tagged message arrives (real doReceive), the actor takes its next message and stashes it, takes and handles it, calls Unstash, calls UnstashAll}; message sender (none / two actors) and Ask-ness (response channel, request id) are symbolic. After every take and at the end (both real queues drained) the delivered contexts are compared with two reference FIFO queues: same tags in the same order, each with its original message, sender, response channel, request id, self. A separate entry shows that without a stash buffer (no state, or state without box) every operation reports ErrStashBufferNotSet and delivers nothing. Nothing is substituted; counterexamples replay natively. The actor is inside its own turn (schedState = Processing), so doReceive does not call the dispatcher.',
-    "bounds": {'quick': {'from a fresh actor': 'every history of 4 decisions (+ every history of 3 decisions with the shared context pool hitting/missing arbitrarily)', 'from 6 prepared states (case split; main mailbox 0..3, stash 0..3 messages, used sentinels, hot pool)': 'every continuation of 2 decisions'}, 'thorough': {'from a fresh actor': 'every history of 5 decisions', 'from the 6 prepared states': 'every continuation of 3 decisions'}, 'shrunk constant': 'contextPoolSize 8192 -> 2 (pool of 2 pre-warmed contexts; reuse is reached within the bound)', 'unstashAll loop': '5 iterations (unwinding assertion proven)'},
+    "timeout_ms": {"quick": 1500000, "thorough": 5400000},
+    "explanation": 'PID.stash/unstash/unstashAll (through ReceiveContext.Stash/Unstash/UnstashAll), cloneContext, getContext and the context pool, PID.doReceive and the real UnboundedMailbox (main mailbox and stash buffer: Enqueue/Dequeue/IsEmpty) are executed symbolically on one actor. A history is a sequence of decisions {a ghost-tagged message arrives (real doReceive), the actor takes its next message and stashes it, takes and handles it, calls Unstash, calls UnstashAll}; message sender (none / two actors), Ask-ness (response channel, request id) and are symbolic; whether every delivery carries its own payload value or all deliveries re-use one payload value is a case split. After every take and at the end (both real queues drained) the delivered contexts are compared with two reference FIFO queues: same tags in the same order, each with its original message, sender, response channel, request id, self. A separate entry shows that without a stash buffer (no state, or state without box) every operation reports ErrStashBufferNotSet and delivers nothing. Nothing is substituted; counterexamples replay natively. The actor is inside its own turn (schedState = Processing), so doReceive does not call the dispatcher.',
+    "bounds": {'quick': {'from a fresh actor': 'every history of 4 decisions (+ every history of 3 decisions with the shared context pool hitting/missing arbitrarily)', 'from 7 prepared states (case split; main mailbox 0..3, stash 0..3 messages, used sentinels, hot pool)': 'every continuation of 2 decisions'}, 'thorough': {'from a fresh actor': 'every history of 5 decisions', 'from the 7 prepared states': 'every continuation of 3 decisions'}, 'shrunk constant': 'contextPoolSize 8192 -> 2 (pool of 2 pre-warmed contexts; reuse is reached within the bound)', 'unstashAll loop': '5 iterations (unwinding assertion proven)'},
     "assumptions": ['the context pool is used by this actor only (select{case <-pool: default:} takes the case exactly when enabled), except in entry vC13_history3 where every pool access may hit or miss', "one actor, sequential: concurrent producers on the mailboxes are C04's subject"],
 }
